@@ -207,6 +207,24 @@ func loadDeb(archive *Ar) (*Deb, error) {
 func loadDeb2(archive map[string]*ArEntry) (*Deb, error) {
 	ret := Deb{ArContent: archive}
 
+	// A .deb has exactly one control and one data member. Which of several
+	// would be parsed here (and which would be covered by CheckDebsig) depends
+	// on map iteration order, so refuse such archives outright.
+	controlMembers, dataMembers := 0, 0
+	for name := range archive {
+		if strings.HasPrefix(name, "control.") {
+			controlMembers++
+		} else if strings.HasPrefix(name, "data.") {
+			dataMembers++
+		}
+	}
+	if controlMembers > 1 {
+		return nil, fmt.Errorf("Archive contains more than one .deb member 'control'")
+	}
+	if dataMembers > 1 {
+		return nil, fmt.Errorf("Archive contains more than one .deb member 'data'")
+	}
+
 	if err := loadDeb2Control(archive, &ret); err != nil {
 		return nil, err
 	}
